@@ -141,6 +141,26 @@ pub fn run(args: &[String]) {
         std::process::exit(3);
     }
     for h in handles { let _ = h.join(); }
+    // quiescence: wait until the worker has drained the queue, then compare the counters with the internal state
+    let deadline = Instant::now() + Duration::from_secs(10);
+    while cache.verif_snapshot().queue_len > 0 && Instant::now() < deadline { thread::sleep(Duration::from_millis(1)); }
+    thread::sleep(Duration::from_millis(20));
+    let snap = cache.verif_snapshot();
+    let buffered: usize = snap.pool.iter().map(|b| b.len()).sum();
+    let charges: i64 = snap.weights.iter().map(|w| w.3).sum();
+    let mut store_ids: Vec<u64> = snap.store.iter().map(|e| e.2).collect();
+    let mut weight_ids: Vec<u64> = snap.weights.iter().map(|w| w.0).collect();
+    store_ids.sort();
+    weight_ids.sort();
+    println!("{}", J::obj(vec![
+        ("stress_quiescent", J::Bool(true)),
+        ("hits", J::I(snap.stats[0] as i128)), ("buffered", J::I(buffered as i128)),
+        ("access_added", J::I(snap.stats[8] as i128)), ("access_dropped", J::I(snap.stats[9] as i128)),
+        ("keys_added", J::I(snap.stats[2] as i128)), ("keys_deleted", J::I(snap.stats[3] as i128)), ("keys_held", J::I(snap.store.len() as i128)),
+        ("weight_added", J::I(snap.stats[6] as i128)), ("weight_removed", J::I(snap.stats[7] as i128)),
+        ("used", J::I(snap.weight_used as i128)), ("charges", J::I(charges as i128)),
+        ("ids_match", J::Bool(store_ids == weight_ids)), ("queue_len", J::I(snap.queue_len as i128)),
+    ]).to_string());
     // a final shutdown must return as well
     let c2 = cache.clone();
     let sd = thread::spawn(move || c2.shutdown());
